@@ -1,14 +1,28 @@
+import os
+
 import vlib
+
+
+def regenerate(rep):
+    """Binding T (welded box): re-translate the triangle table cubeVertIndices of modeling/primitives/cube.go of the
+    repository under test into coq/gen/CubeTable.v (tools/tab2coq) before anything is built, so that the cube_table_*
+    theorems are re-proved about the table the source has now."""
+    rc, out = vlib.sh([os.path.join(vlib.VERIF, "bin", "regen-c18.sh")], cwd=vlib.VERIF, timeout=300)
+    if rc != 0:
+        return False, "tab2coq could not translate cubeVertIndices of modeling/primitives/cube.go:\n" + out[-3000:]
+    return True, out
+
 
 CFG = {
     "id": "C18", "harness": "c18",
     "check_vo": "theories/Check/C18.vo", "prop_vo": "theories/Properties/C18.vo",
     "prop_file": "theories/Properties/C18.v",
+    "pre": regenerate,
     "theory_files": ["theories/Gen/Closed.v", "theories/Gen/ClosedProofs.v", "theories/Gen/FamilyProofs.v",
                      "theories/Gen/Sphere.v", "theories/Gen/Hemisphere.v", "theories/Gen/Cylinder.v",
                      "theories/Gen/Cube.v", "theories/Gen/CylinderProofs.v", "theories/Gen/SphereProofs.v",
                      "theories/Gen/CubeProofs.v", "theories/Gen/CylinderGeom.v", "theories/Gen/SphereGeom.v", "theories/Gen/CylinderVolume.v", "theories/Gen/CylinderMono.v",
-                     "theories/Gen/SphereVolume.v", "theories/Gen/HemiVolume.v", "theories/Gen/CubeClasses.v", "theories/Gen/VolumeLimits.v", "theories/Gen/GenProofs.v"],
+                     "theories/Gen/SphereVolume.v", "theories/Gen/HemiVolume.v", "theories/Gen/CubeClasses.v", "theories/Gen/VolumeLimits.v", "theories/Gen/CubeTableProofs.v", "theories/Gen/GenProofs.v"],
     "level_text": "Coq theorems about Gallina copies of the index-generating loops of the solid primitives (UV sphere "
                   "welded/unwelded, hemisphere, capped cylinder, welded box table, six-quad box) and their vertex "
                   "coincidence classes: well-formed indices and closed + consistently oriented surface "
